@@ -39,6 +39,7 @@ def run(plan):
     dev = s.dev
     res = Result()
     counts = {"cmds": 0}
+    gaps = [0]          # commands that consumed an id but never reached the wire (refused connect)
 
     async def main(w):
         ac = s.make_clients()[0]
@@ -76,6 +77,35 @@ def run(plan):
                 if dev.violations:
                     v = dev.violations[0]
                     res.fail(f"device-side strict parser rejected a command ({v[0]}: {v[1]})", bytes(v[2]).hex())
+                    return
+                continue
+            if kind == "failed_connect_gap":
+                # a third object's command is built, but its connect is slow and finally refused; meanwhile this
+                # object emits `r` polls. The command that never left consumed one id (one gap on the wire); after
+                # that every command continues the sequence
+                third = w.ns.AC(ip=ac.ip, port=ac.port, device_id=ac.id)
+                dev.conn_script = [["refuse", op.get("delay", 3.0)]]
+                from simkit.world import capture
+                tb = w.loop.create_task(capture(w, third.refresh()))
+                await asyncio.sleep(0.01)
+                for _ in range(op["r"]):
+                    o = await s.do({"op": "refresh"})
+                    if o.kind != "ok":
+                        res.fail(f"refresh raised {o.exc_type}", repr(o.exc))
+                        return
+                ob = await tb
+                dev.conn_script = []
+                if ob.kind != "ok":
+                    res.fail(f"refresh with a refused connect raised {ob.exc_type}", repr(ob.exc))
+                    return
+                if not third.online:
+                    gaps[0] += 1
+                    w.fire("command_built_but_never_transmitted")
+                if s.version == 3:
+                    await capture(w, third.authenticate(s.token.hex(), s.key.hex()))
+                o = await capture(w, third.refresh())
+                if o.kind != "ok":
+                    res.fail(f"refresh raised {o.exc_type}", repr(o.exc))
                     return
                 continue
             if kind == "race_caps":
@@ -156,8 +186,11 @@ def run(plan):
                 res.fail(f"frame type {e['ftype']:#x} for command 0x{body[0]:02x}", e["frame"].hex())
                 break
             if prev is not None and e["msg_id"] != (prev + 1) & 0xFF:
-                res.fail("message id does not advance by one modulo 256", f"{prev} -> {e['msg_id']} at command {counts['cmds']}")
-                break
+                if gaps[0] > 0 and e["msg_id"] == (prev + 2) & 0xFF:
+                    gaps[0] -= 1
+                else:
+                    res.fail("message id does not advance by one modulo 256", f"{prev} -> {e['msg_id']} at command {counts['cmds']}")
+                    break
             if prev == 255:
                 w.probe("message_id_wrapped")
             prev = e["msg_id"]
@@ -197,6 +230,8 @@ def gen(j, rng, nops):
             ops.append({"op": "concurrent"})
         elif r < 0.07:
             ops.append({"op": "bad_apply", "value": rng.choice([300, -1, 256, 1000, 50.5, 128, 255])})
+        elif r < 0.075 and version == 2 and nops <= 40:
+            ops.append({"op": "failed_connect_gap", "r": rng.choice([256, 256, 512, 255, 257, 1]), "delay": 4.0})
         elif r < 0.09:
             sub = [c for c in PROP_CAPS if rng.random() < 0.5] + [(0x0214, b"\x01")]
             rng.shuffle(sub)
